@@ -287,6 +287,7 @@ package setec
 //@     invariant [state] s != nil && allocated(s) && s.active.m != nil && allocated(s.active.m) && s.active.f != nil && s.active.w != nil && allocated(s.active.f) && allocated(s.active.w) &&
 //@        s.timeNow != nil && s.logf != nil && s.client == cfg.Client && cfg.Client != nil && !s.active.Mutex && s.allowLookup == cfg.AllowLookup && s.expiryAge == cfg.ExpiryAge && ctx != nil
 //@     invariant [handles-empty] (forall n string :: !has(s.active.f, n)) && (forall n string :: !has(s.active.w, n))
+//@     invariant [C13 newstore.undecodable-cache-ignored] cacheDecodeErr != nil ==> (forall n string :: has(s.active.m, n) ==> s.active.m[n] == nil)
 //@     invariant [entries] forall n string :: (has(s.active.m, n) && s.active.m[n] != nil) ==> (allocated(s.active.m[n]) && s.active.m[n].Secret != nil && allocated(s.active.m[n].Secret))
 //@     invariant [sep] forall n string, k string :: (has(s.active.m, n) && has(s.active.m, k) && n != k && s.active.m[n] != nil) ==> s.active.m[n] != s.active.m[k]
 //@     invariant [names] (forall j int :: (0 <= j && j < len(secrets)) ==> secrets[j] != "") && (forall i int, j int :: (0 <= i && i < j && j < len(secrets)) ==> secrets[i] != secrets[j]) &&
